@@ -220,7 +220,8 @@ def gen(streams, tier, i):
                           "add", "names", "l.str", "l.clone", "l.rename", "select", "to_other",
                           "components", "linear_paths", "multiply",
                           "seg_component", "cut", "to_obj", "l.to_other", "l.diff", "l.refs", "each.to_other",
-                          "l.edit_rm", "l.edit_rm", "select_rt", "l.retype", "l.retype", "l.edge_setter"])
+                          "l.edit_rm", "l.edit_rm", "select_rt", "l.retype", "l.retype", "l.edge_setter",
+                          "grp.edit", "grp.edit"])
         # graph rewrites on arbitrary (possibly corrupted) graphs -- merge_linear_paths, remove_dead_ends,
         # remove_small_components, group resolution -- take no string argument and are outside C07's
         # quantifier (texts and strings passed to the API); C14/C16/C17 cover them on their own domains
@@ -503,6 +504,22 @@ def api(g, cx, op, st):
         cx.call("str(line) after set_datatype", str, l)
         cx.call("line.clone() after set_datatype", l.clone)
         o = cx.call("gfa.validate() after set_datatype", g.validate)
+    elif c == "grp.edit":
+        gs = [x for x in g.lines if x.record_type in ("O", "U")]
+        if not gs:
+            return
+        gr = gs[op["li"] % len(gs)]
+        item = a if gr.record_type == "U" else (a if a[-1:] in "+-" else a + "+-"[op["li"] % 2])
+        if gr.record_type == "U":
+            cx.call("set.add_item(%r)" % item, gr.add_item, item)
+            o = cx.call("set.rm_item(%r)" % v, gr.rm_item, v if op["li"] % 2 else item)
+        else:
+            cx.call("path.append_item(%r)" % item, gr.append_item, item)
+            cx.call("path.prepend_item(%r)" % v, gr.prepend_item, v)
+            cx.call("path.rm_first_item()", gr.rm_first_item)
+            o = cx.call("path.rm_last_item()", gr.rm_last_item)
+        cx.call("gfa.validate() after group edit", g.validate)
+        cx.call("str(gfa) after group edit", str, g)
     elif c == "l.edge_setter":
         es = [x for x in g.lines if x.record_type in ("E", "L", "C")]
         if not es:
